@@ -125,6 +125,18 @@ def extract():
     if not im:
         raise core.CheckBroken("ex_c08_regex: rule invert_char changed shape: %r" % iv)
     inv = re.findall(r"'(.)'", im.group(1))
+    # Pattern::expand: where the matches are sorted
+    xm = re.search(r"pub\(crate\)\s+fn\s+expand<PF>.*?\n    \}\n", pc, flags=re.S)
+    if not xm or "Ok(PatternExpansionResult::Expanded(results))" not in xm.group(0):
+        raise core.CheckBroken("ex_c08_regex: Pattern::expand not found or no longer ends in Ok(PatternExpansionResult::Expanded(results))")
+    xbody = xm.group(0)
+    if "matching_paths_in_dir" not in xbody or "paths_so_far" not in xbody:
+        raise core.CheckBroken("ex_c08_regex: Pattern::expand no longer collects matching_paths_in_dir into paths_so_far")
+    sorts_per_dir = re.search(r"matching_paths_in_dir\s*\.\s*sort(_unstable)?\(\)\s*;", xbody) is not None
+    tail = xbody[xbody.index("let results"):] if "let results" in xbody else (xbody[xbody.index("let mut results"):] if "let mut results" in xbody else None)
+    if tail is None:
+        raise core.CheckBroken("ex_c08_regex: Pattern::expand no longer builds `results`")
+    sorts_results = re.search(r"\bresults\s*\.\s*sort(_unstable)?\(\)\s*;", tail) is not None
     out = []
     out.append("(** GENERATED by translator/ex_c08_regex.py from brush-core/src/regex.rs, brush-core/src/patterns.rs and")
     out.append("    brush-parser/src/pattern.rs - do not edit. *)")
@@ -145,6 +157,9 @@ def extract():
     out.append("Definition pattern_uses_flags : bool := %s." % ("true" if pat_multiline else "false"))
     out.append("Definition anchor_start : bool := %s." % ("true" if anchor_start else "false"))
     out.append("Definition anchor_end : bool := %s." % ("true" if anchor_end else "false"))
+    out.append("(* patterns.rs Pattern::expand: matching_paths_in_dir.sort() per directory; results.sort() on the final list *)")
+    out.append("Definition expand_sorts_per_dir : bool := %s." % ("true" if sorts_per_dir else "false"))
+    out.append("Definition expand_sorts_results : bool := %s." % ("true" if sorts_results else "false"))
     out.append("(* pattern.rs rule char_class, in order *)")
     out.append("Definition class_names : list str := [%s]." % "; ".join(strlit(n) for n in names))
     out.append("(* pattern.rs rule extended_glob_prefix, in order *)")
